@@ -344,6 +344,89 @@ def d7_samples(ctx, m):
             ctx.unrec('C12-D7', key, 'unknown gradient handling', m.loc(s_))
 
 
+class _V(list):
+    def __eq__(self, other):
+        return _V([x == other for x in self])
+
+    def __ne__(self, other):
+        return _V([x != other for x in self])
+
+    __hash__ = None
+
+
+class _NPS:
+    all = staticmethod(lambda x: all(x))
+    any = staticmethod(lambda x: any(x))
+    sum = staticmethod(lambda x: sum(x))
+    abs = staticmethod(lambda x: _V([abs(y) for y in x]))
+    count_nonzero = staticmethod(lambda x: sum(1 for y in x if y))
+
+
+def d9_per_replica_and_pruning(ctx, m):
+    """(a) pobs writer: the number of configurations written for replica r is the length of replica r;
+    (b) dobs reader: a covariance input is removed from an observable only if every component of its gradient vanishes
+        (condition evaluated on gradients (0,0), (1,-1), (1,0), (0,2))."""
+    rule = 'C12-D7'
+    w = m.func('create_pobs_string')
+    loops = [s_ for s_ in statements(w) if isinstance(s_, ast.For) and isinstance(s_.target, ast.Name) and any(isinstance(x, ast.Assign) and unparse(x.targets[0]) == "ad['layout']" for x in walk(s_))]
+    key = 'pobs#layout-per-replica'
+    if len(loops) != 1:
+        ctx.unrec(rule, key, 'replica loop with the layout assignment not found (%d)' % len(loops))
+    else:
+        r = loops[0].target.id
+        lay = [x for x in walk(loops[0]) if isinstance(x, ast.Assign) and unparse(x.targets[0]) == "ad['layout']"][0]
+        # resolve the count expression through single-assignment locals
+        defs = {}
+        for s_ in statements(w):
+            if isinstance(s_, ast.Assign) and len(s_.targets) == 1 and isinstance(s_.targets[0], ast.Name):
+                defs.setdefault(s_.targets[0].id, []).append(s_)
+        expr = lay.value
+        for _ in range(3):
+            if isinstance(expr, ast.Name) and len(defs.get(expr.id, [])) == 1:
+                expr = defs[expr.id][0].value
+        counts = [c for c in ast.walk(expr) if isinstance(c, ast.Call) and call_name(c) == 'len']
+        for n_ in [n_ for n_ in ast.walk(expr) if isinstance(n_, ast.Name) and len(defs.get(n_.id, [])) == 1]:
+            counts += [c for c in ast.walk(defs[n_.id][0].value) if isinstance(c, ast.Call) and call_name(c) == 'len']
+        per_rep = [c for c in counts if any(isinstance(x, ast.Subscript) and isinstance(x.slice, ast.Name) and x.slice.id == r for x in ast.walk(c))]
+        ctx.check(rule, key, bool(per_rep), 'the count in the layout of replica %s is a length indexed by %s' % (r, r),
+                  'the layout of every replica is written with the count %s, which does not depend on the replica index `%s`: longer replicas are truncated on import' % ([unparse(c) for c in counts][:3], r), m.loc(lay))
+    rd = m.func('import_dobs_string')
+    dels = [s_ for s_ in statements(rd) if isinstance(s_, ast.Delete) and 'new_covobs' in unparse(s_)]
+    key = 'input/dobs.py:import_dobs_string#covobs-pruning'
+    if len(dels) != 1:
+        ctx.unrec(rule, key, 'pruning statement not found (%d)' % len(dels))
+    else:
+        gs = [t for t, pol in guards_of(m, dels[0], stop=rd) if pol]
+        gnodes = [x for t in gs for x in ast.walk(t) if isinstance(x, ast.Attribute) and x.attr == 'grad']
+        if not gs or not gnodes:
+            ctx.unrec(rule, key, 'pruning condition not understood')
+        else:
+            wrong = []
+            for vec in ([0.0, 0.0], [1.0, -1.0], [1.0, 0.0], [0.0, 2.0], [0.0]):
+                try:
+                    import copy as _c
+                    t2 = _c.deepcopy(gs[-1])
+                    for x in list(ast.walk(t2)):
+                        if isinstance(x, ast.Attribute) and x.attr == 'grad':
+                            for par in ast.walk(t2):
+                                for fld, v_ in ast.iter_fields(par):
+                                    if v_ is x:
+                                        setattr(par, fld, ast.Name(id='_g', ctx=ast.Load()))
+                                    elif isinstance(v_, list):
+                                        for k_, y in enumerate(v_):
+                                            if y is x:
+                                                v_[k_] = ast.Name(id='_g', ctx=ast.Load())
+                    if isinstance(t2, ast.Attribute) and t2.attr == 'grad':
+                        t2 = ast.Name(id='_g', ctx=ast.Load())
+                    val = bool(eval(compile(ast.fix_missing_locations(ast.Expression(body=t2)), '<prune>', 'eval'), {'__builtins__': {'all': all, 'any': any, 'sum': sum, 'abs': abs, 'len': len}, 'np': _NPS}, {'_g': _V(vec)}))
+                except Exception as e_:
+                    raise Unrecognised('cannot evaluate the pruning condition %s: %s' % (unparse(gs[-1]), e_))
+                if val != all(x == 0 for x in vec):
+                    wrong.append(vec)
+            ctx.check(rule, key, not wrong, 'a covariance input is dropped exactly when all gradient components vanish',
+                      'the pruning condition `%s` decides wrongly for the gradients %s: an input whose gradient components cancel is dropped and the error underestimated' % (unparse(gs[-1]), wrong), m.loc(dels[0]))
+
+
 def run(ctx):
     ctx.rule('C12-D1', 'positional tag agreement writer/reader')
     ctx.rule('C12-D2', 'offset encoding inverted; row layout vs stride')
@@ -361,6 +444,7 @@ def run(ctx):
     ctx.guarded('C12-D6', 'dobs@misc', d6_misc, ctx, m)
     ctx.rule('C12-D7', 'sample reconstruction (delta + own replica mean); gradient table orientation')
     ctx.guarded('C12-D7', 'dobs@samples', d7_samples, ctx, m)
+    ctx.guarded('C12-D7', 'dobs@per-replica-and-pruning', d9_per_replica_and_pruning, ctx, m)
     from .. import unusedparams, leakedloop
     ctx.rule('C12-D8', 'every accepted option is read (no silently ignored parameter); no loop variable read after its loop')
     for mn_ in ('input.dobs',):
@@ -373,6 +457,8 @@ def run(ctx):
 
 
 SELFTEST = [
+    ('covobs-pruned-by-sum', 'pyerrors/input/dobs.py', "            if np.all(new_covobs[name].grad == 0):", "            if np.sum(new_covobs[name].grad) == 0:", 'C12-D7'),
+    ('benign-covobs-pruned-not-any', 'pyerrors/input/dobs.py', "            if np.all(new_covobs[name].grad == 0):", "            if not np.any(new_covobs[name].grad != 0):", 'BENIGN'),
     ('replica-skipped-when-constant', 'pyerrors/input/dobs.py', "            if len(h) == 1 and np.all(h == mean[i]):", "            if len(h) == 1:", 'C12-D3'),
     ('benign-rename-cdata-locals', 'pyerrors/input/dobs.py', "    cov = _import_array(cd[1])\n    grad = _import_array(cd[2])\n    return cd[0].text.strip(), cov, grad", "    cmat = _import_array(cd[1])\n    jac = _import_array(cd[2])\n    return cd[0].text.strip(), cmat, jac", 'BENIGN'),
     ('cdata-cov-grad-swapped', 'pyerrors/input/dobs.py', "    cov = _import_array(cd[1])\n    grad = _import_array(cd[2])", "    cov = _import_array(cd[2])\n    grad = _import_array(cd[1])", 'C12-D2'),
